@@ -146,6 +146,38 @@ def w_program(case):
                          'expected': eS, 'observed': S, 'behaviour': 'sens'})
         outcome.append(tol.rnd(S, 5))
         model.enable_sensitivities(False)
+    # sensitivities must follow the free set through fix / swap / release calls made
+    # while they are enabled
+    if case.get('swap'):
+        a, b = case['swap']
+        m.set_outputs(list(sel))
+        rm = chi.ReducedMechanisticModel(m)
+        rm.enable_sensitivities(True)
+        steps = [{names[a]: pv[a]}, {names[a]: None, names[b]: pv[b]},
+                 {names[b]: None}]
+        fixed_now = set()
+        for step in steps:
+            rm.fix_parameters(step)
+            for k_, v_ in step.items():
+                (fixed_now.discard if v_ is None else fixed_now.add)(
+                    names.index(k_))
+            free_idx = [i for i in range(len(names)) if i not in fixed_now]
+            x = np.array([pv[i] for i in free_idx], dtype=float)
+            y, S = rm.simulate(list(x), list(times))
+            ntr += 2
+            S = np.asarray(S, dtype=float)
+            eS = np.empty((len(times), len(sel), len(free_idx)))
+            for k in range(len(free_idx)):
+                z = x.astype(complex)
+                z[k] += 1j * 1e-30
+                eS[:, :, k] = (np.imag(closed(z, free_idx)) / 1e-30).T
+            if S.shape != eS.shape or not tol.allclose(S, eS, 1e-5, 1e-7):
+                viol.append({'sub': 'sens_history', 'message': 'after fix / swap / '
+                             'release calls with sensitivities enabled the '
+                             'sensitivities are not w.r.t. the free parameters in '
+                             'published order (%s)' % lab, 'fixed': sorted(fixed_now),
+                             'expected': eS, 'observed': S,
+                             'behaviour': 'sens_history'})
     return {'transitions': ntr, 'outcome': outcome, 'violations': viol}
 
 
@@ -269,7 +301,9 @@ WORKERS = {'generated': w_program, 'library': w_library}
 
 
 def build(tier, seed):
-    topologies = ['one', 'chain2', 'mam2'] if tier == 'quick' else \
+    # (quick: the 3-compartment model comes with identity / reversed / rotated
+    # declaration orders -- the rotation is a 3-cycle w.r.t. alphabetical order)
+    topologies = ['one', 'chain2', 'mam2', 'mam3'] if tier == 'quick' else \
         ['one', 'chain2', 'mam2', 'chain3', 'mam3']
     descs = sbmlgen.all_descriptors(topologies, full_perms=(tier == 'thorough'))
     cases = []
@@ -291,7 +325,8 @@ def build(tier, seed):
             fixed_sets += [[di % n], [0, n - 1], [(di + 1) % n, (di + 2) % n]]
         cases.append({'desc': desc, 'cls': 'PKPD' if di % 2 else 'SBML',
                       'points': points, 'grids': grids, 'selections': sels,
-                      'sens_outputs': sens_out, 'fixed_sets': fixed_sets})
+                      'sens_outputs': sens_out, 'fixed_sets': fixed_sets,
+                      'swap': [di % n, (di + 2) % n] if n > 2 else None})
     lib = []
     for kind in LIB_NAMES:
         n = len(LIB_NAMES[kind])
